@@ -149,6 +149,11 @@ func (w *isoWorker) kill() {
 // RunIsolated evaluates cases[i] (JSON-serialisable, replay kind `kind`) in worker subprocesses.
 // onAbnormal builds the failure for a case that crashed the worker or exceeded the deadline.
 func (c *Ctx) RunIsolated(kind string, cases []interface{}, deadline time.Duration, onAbnormal func(i int, timedOut bool, stderr string) *Failure) {
+	c.RunIsolatedEx(kind, cases, deadline, onAbnormal, nil)
+}
+
+// RunIsolatedEx: onFailure, if not nil, receives the failures returned by workers instead of c.Fail.
+func (c *Ctx) RunIsolatedEx(kind string, cases []interface{}, deadline time.Duration, onAbnormal func(i int, timedOut bool, stderr string) *Failure, onFailure func(i int, f *Failure)) {
 	var next int64
 	var wg sync.WaitGroup
 	nw := c.Workers
@@ -222,7 +227,11 @@ func (c *Ctx) RunIsolated(kind string, cases []interface{}, deadline time.Durati
 					c.HarnessError("%s", rp.Harness)
 				}
 				if rp.F != nil {
-					c.Fail(rp.F)
+					if onFailure != nil {
+						onFailure(i, rp.F)
+					} else {
+						c.Fail(rp.F)
+					}
 				}
 			}
 		}()
